@@ -5,6 +5,7 @@ from .. import histprop as H
 ID = 'C08'
 LEVEL = 'exploration'
 RULE = (
+    'One shard per tier under python -O; manual incref/decref through other handles; second manager. '
     'S: every position of the dynamic-reordering trigger for the entry points that create handles from other managers, files and recursions with integer intermediates (as in C09). '
     'Histories also contain a few rejected calls from the catalogue of C17 (failing loads, undeclared names, ...). '
     'H: Hypothesis histories on dd.autoref; the harness registry holds the '
